@@ -1,6 +1,6 @@
 /-
 C02, the wedge: a flush of a core that owes no ACK, has no probe pending, believes the peer's window
-open, cannot admit anything and holds only segments flagged `acked` writes nothing and changes
+open, can move nothing from its send queue and holds only segments flagged `acked` writes nothing and changes
 nothing that matters (`flush_idle`).  A system state in which both cores are like that and both links
 are empty is stuck for ever (`Stuck`, `stuck_run`; over `Old.step`, the system with the PRE-REPAIR
 `Input` of Model/SysOld.lean — the events other than the two deliveries are those of `Sys.step`) — although A's send buffer is not empty.  Such a
